@@ -102,6 +102,7 @@ func (m *MMap) Close() error {
 func (m *MMap) Truncate(size int64) error {
 	// 仅需回退虚拟文件大小, 物理文件在关闭时按虚拟大小截断
 	if size < m.virtualSize {
+		verifhook.IO(verifhook.IOTruncate, m.file.Name(), size)
 		m.virtualSize = size
 	}
 	return nil
